@@ -15,11 +15,11 @@ from vlib import glist
 
 PID = "C15"
 # Defect flags (bits of Gov.defects_of_bits) of findings that are still OPEN in known_findings.d/C15.json.
-# 1 zero_open | 2 underflow | 4 avail_voted | 8 special_updavail | 16 unlock_closed.  All five were
-# repaired in /repo (see known_findings.d/C15.json "fixed"), so the current tree must match the
-# repaired model exactly.
-CFG_CURRENT = int(os.environ.get("C15_CFG", "0"))
-FLAG_NAMES = {1: "zero_open", 2: "underflow", 4: "avail_voted", 8: "special_updavail", 16: "unlock_closed"}
+# 1 zero_open | 2 underflow | 4 avail_voted | 8 special_updavail | 16 unlock_closed | 32 logout_inc.
+# The first five were repaired in /repo (known_findings.d/C15.json "fixed"); 32 is recorded as an open
+# finding, so the current tree may behave like the model with or without that flag.
+CFG_CURRENT = int(os.environ.get("C15_CFG", "32"))
+FLAG_NAMES = {1: "zero_open", 2: "underflow", 4: "avail_voted", 8: "special_updavail", 16: "unlock_closed", 32: "logout_inc"}
 
 CLAUSES = {1: "a finished proposal changed (status / tallies / end reason / ballots)",
            2: "tally is not the number of distinct electors' ballots",
@@ -30,7 +30,8 @@ CLAUSES = {1: "a finished proposal changed (status / tallies / end reason / ball
            7: "a refused transaction changed state, or a vote that must be refused was accepted",
            8: "governed object changed without a proposal about it being created or concluded",
            9: "proposal header / frozen electorate wrong",
-           10: "electors counted as available do not cover voters + available non-voters"}
+           10: "electors counted as available do not cover voters + available non-voters",
+           11: "more electors counted as available than the electorate has"}
 
 # ------------------------------------------------------------------------------------------------
 # strategy expressions: AST <-> govaluate string <-> Gallina term <-> python evaluation
@@ -123,12 +124,13 @@ def admitted_py(e, n):
     return any(b_ev(e, a, 0, n) for a in range(n + 1))
 
 
-def mono_py(e, t):
-    """monotone on the domain a, r in [0..t]: more approvals / fewer rejections never falsify"""
-    for a in range(t + 1):
-        for r in range(t + 1):
+def mono_py(e, t, bound=None):
+    """monotone on the domain a, r in [0..bound] (default t): more approvals / fewer rejections never falsify"""
+    bound = min(max(t, bound or 0), 64)
+    for a in range(bound + 1):
+        for r in range(bound + 1):
             if b_ev(e, a, r, t):
-                if any(not b_ev(e, a2, r, t) for a2 in range(a, t + 1)):
+                if any(not b_ev(e, a2, r, t) for a2 in range(a, bound + 1)):
                     return False
                 if any(not b_ev(e, a, r2, t) for r2 in range(0, r + 1)):
                     return False
@@ -233,7 +235,7 @@ def coq_op(o):
     return "OBad"
 
 
-def case_term(h, init, steps, cfgs):
+def case_term(h, init, steps, cfgs, skip=()):
     """h: history header + blocks (one op per block); init/steps: observations"""
     accts = sorted({r[0] for r in init["roles"]})
     nodes = sorted({300 + x[0] for x in init["nodes"]})
@@ -243,10 +245,10 @@ def case_term(h, init, steps, cfgs):
         o = b[0]
         rc = so["rc"][0][1] if so["rc"] else 9
         tr.append("(%s, %d, %s)" % (coq_op(o), rc, coq_state(so)))
-    return "(check_case %s %s %s %s %s %s\n  %s %s)" % (
+    return "(check_case %s %s %s %s %s %s\n  %s %s %s)" % (
         glist(h["_ast"], b_coq), glist(accts), glist(nodes), glist(h["weights"]),
         glist(strat, lambda s: "(%d,(%s,%d,sA))" % (s[0], gb(s[1][0] == 1), s[1][1])),
-        coq_state(init), glist(tr, lambda x: x).replace("; (", ";\n   ("), glist(cfgs))
+        coq_state(init), glist(tr, lambda x: x).replace("; (", ";\n   ("), glist(cfgs), glist(list(skip)))
 
 
 def eval_cases(ctx, name, terms, shard=60):
@@ -535,6 +537,108 @@ def gen_histories(ctx, exe, count, maxlen, nonmono_p=0.2):
     return out
 
 
+def gen_theme(r):
+    """scripted histories around the situations the property singles out: the electorate shrinks
+    (freeze / logout of an elector through its own proposal) while another proposal is open, so that
+    t (electorate at creation) differs from the available count; exactly-half tallies; a logout
+    request over a pending freeze / activate request (priorities, pause / restore); logout of a frozen
+    admin; zero-permission strategies with ZeroPermission calls by outsiders"""
+    n = r.randint(3, 7)
+    weights = [2] + [1] * (n - 1)
+    if r.random() < 0.2 and n > 3:
+        weights[r.randrange(1, n)] = 2
+    pool = [DEFAULT]
+    for e in r.sample(POOL_MONO[1:], 2) + ([r.choice(POOL_NONMONO)] if r.random() < 0.15 else []):
+        if e not in pool:
+            pool.append(e)
+    adm = [i for i, e in enumerate(pool) if admitted_py(e, n)]
+    ei = r.choice(adm) if r.random() < 0.6 else 0
+    strat = [[0, ei], [0, ei], [0, 0]]
+    normals = [i for i in range(n) if weights[i] != 2]
+    admins = list(range(n))
+    blocks = []
+    np_ = [0]
+
+    def submit(kind, c, x):
+        blocks.append([dict(k=kind, c=c, x=x)])
+        np_[0] += 1
+        return np_[0] - 1
+
+    def votes(p, voters, ballot=None):
+        for v in voters:
+            blocks.append([dict(k="vote", c=v, p=p, b=(r.randrange(2) if ballot is None else ballot))])
+
+    def approve_all(p, skip=()):
+        order = [a for a in admins if a not in skip]
+        votes(p, order, 1)
+
+    theme = r.choice("ABCDE")
+    if theme == "A":
+        P = submit(r.choice(["reg_node", "reg_role"]), 0, 0 if r.random() < 0.5 else 100)
+        if blocks[-1][0]["k"] == "reg_role":
+            blocks[-1][0]["x"] = 100
+        early = r.sample(admins, r.randint(0, n - 1))
+        votes(P, early)
+        if normals:
+            x = r.choice(normals)
+            F = submit("freeze", 0, x)
+            approve_all(F, skip=[x] if r.random() < 0.5 else [])
+        rest = [a for a in admins if a not in early]
+        r.shuffle(rest)
+        votes(P, rest)
+    elif theme == "B":
+        if normals:
+            x = r.choice(normals)
+            F = submit("freeze", 0, x)
+            approve_all(F)
+            P = submit("reg_node", 0, 0)
+            votes(P, r.sample(admins, r.randint(0, 2)))
+            L = submit("logout", r.choice([0, x]), x)
+            votes(P, r.sample(admins, r.randint(0, 2)))
+            votes(L, admins, r.randrange(2))
+            if r.random() < 0.5:
+                A = submit("activate", r.choice([0, x]), x)
+                approve_all(A)
+            votes(P, r.sample(admins, n))
+    elif theme == "C":
+        P = submit("reg_node", 0, 0)
+        order = r.sample(admins, n)
+        votes(P, order[: n // 2], 1)
+        if normals and r.random() < 0.6:
+            x = r.choice(normals)
+            F = submit("freeze", 0, x)
+            approve_all(F)
+        votes(P, order[n // 2:], 1)
+    elif theme == "D":
+        if normals:
+            x = r.choice(normals)
+            first = r.choice(["freeze", "activate"])
+            if first == "activate":
+                F0 = submit("freeze", 0, x)
+                approve_all(F0)
+            F = submit(first, 0, x)
+            votes(F, r.sample(admins, r.randint(0, 2)))
+            L = submit("logout", 0, x)
+            if r.random() < 0.3:
+                blocks.append([dict(k="withdraw", c=0, p=F)])
+            votes(F, r.sample(admins, 1))
+            votes(L, admins, r.randrange(2))
+            votes(F, r.sample(admins, n))
+    else:
+        strat = [[0, ei], [1, 0], [1, 0]]
+        P = submit("reg_node", 0, 0)
+        blocks.append([dict(k="zero", c=200, p=P)])
+        S = submit("upd_strategy", 0, 1)
+        blocks[-1][0].update(b=0, e=ei)
+        if ei == 0:
+            blocks[-1][0].update(b=0, e=0)
+        L = submit("logout_node", 0, 0)
+        blocks.append([dict(k="zero", c=r.choice([200, 1]), p=r.choice([P, L]))])
+        votes(L, admins, r.randrange(2))
+    return dict(n=n, weights=weights, strat=strat, exprs=[b_go(e) for e in pool], _ast=pool,
+                accts=[100, 101, 200, 201], nodes=2, blocks=blocks)
+
+
 def run_batch(exe, hs):
     """run complete histories through the batch driver; returns list of (init, steps) or None"""
     rc, outs, e = vlib.run_driver(exe, "gov", [pub(h) for h in hs], timeout=1800)
@@ -575,8 +679,19 @@ def classify(h, init, steps, v, known):
             for i, q in enumerate(so["props"]):
                 was_open = i >= len(prev) or prev[i]["st"] < 2
                 if was_open and q["st"] == 3 and q["reason"] in (1, 5) and 0 <= q["expr"] < len(h["_ast"]):
-                    if not mono_py(h["_ast"][q["expr"]], max(q["t"], 1)):
+                    if not mono_py(h["_ast"][q["expr"]], max(q["t"], 1), q["av"]):
                         return "known", "C15-nonmonotone-expression"
+        if clause == 11 and so is not None and "C15-logout-reject-drift" in known:
+            # explained by the listed finding only if a logout proposal of a role was rejected in this
+            # step, its role is available again, and every proposal that now counts too many electors
+            # has that role in its electorate
+            prev = steps[step - 1]["props"] if step > 0 else init["props"]
+            roles = {x[0]: x[1] for x in so["roles"]}
+            objs = [q["obj"] for i, q in enumerate(so["props"])
+                    if q["kind"] == 0 and q["ev"] == 4 and q["st"] == 3 and (i >= len(prev) or prev[i]["st"] < 2) and roles.get(q["obj"]) in (3, 4)]
+            over = [q for i, q in enumerate(so["props"]) if q["av"] > q["t"] and (i >= len(prev) or prev[i]["av"] <= prev[i]["t"])]
+            if objs and over and all(any(e[0] in objs for e in q["elect"]) for q in over):
+                return "known", "C15-logout-reject-drift"
         return "violation", "step %d: %s" % (step, CLAUSES.get(clause, "clause %d" % clause))
     if m == 0:
         return "ok", ""
@@ -597,32 +712,53 @@ def hist_key(h):
 
 
 def shrink(ctx, exe, h, want):
-    """delta-debug the op list keeping the same verdict class `want` = (kind, clause)"""
+    """delta-debug the op list keeping the same verdict signature `want`"""
     cur = h
     cfgs = allowed_cfgs()
-    for _ in range(40):
+
+    def test(cands):
+        res, err = run_batch(exe, cands)
+        if res is None:
+            return None
+        vs = eval_cases(ctx, "C15_shrink", [case_term(c, ini, st, cfgs) for c, (ini, st) in zip(cands, res)])
+        if vs is None:
+            return None
+        return [sig(v) == want for v in vs]
+
+    for _ in range(12):
+        n = len(cur["blocks"])
+        if n <= 1:
+            break
         cands = []
-        for i in range(len(cur["blocks"])):
+        for i in range(n):
             c = dict(cur)
             c["blocks"] = cur["blocks"][:i] + cur["blocks"][i + 1:]
             cands.append(c)
-        if not cands:
+        ok = test(cands)
+        if ok is None:
             break
-        res, err = run_batch(exe, cands)
-        if res is None:
+        removable = [i for i, x in enumerate(ok) if x]
+        if not removable:
             break
-        terms = [case_term(c, ini, st, cfgs) for c, (ini, st) in zip(cands, res)]
-        vs = eval_cases(ctx, "C15_shrink", terms)
-        if vs is None:
-            break
-        nxt = None
-        for c, (ini, st), v in zip(cands, res, vs):
-            if sig(v) == want:
-                nxt = (c, ini, st, v)
-                break
-        if nxt is None:
-            break
-        cur = nxt[0]
+        # try dropping all individually removable ops at once, then halves of them, then just one
+        done = False
+        sets = [removable, removable[: len(removable) // 2], removable[len(removable) // 2:]]
+        trial = []
+        for rs in sets:
+            if len(rs) > 1:
+                c = dict(cur)
+                c["blocks"] = [b for i, b in enumerate(cur["blocks"]) if i not in rs]
+                trial.append(c)
+        if trial:
+            ok2 = test(trial)
+            if ok2:
+                for c, x in zip(trial, ok2):
+                    if x:
+                        cur = c
+                        done = True
+                        break
+        if not done:
+            cur = cands[removable[-1]]
     return cur
 
 
@@ -646,6 +782,19 @@ def ast_of_strings(strs):
     return [table[s] for s in strs]
 
 
+MAX_PER_SIG = 2
+
+
+def report(ctx, stats, sigkey, what, rep):
+    """at most MAX_PER_SIG replays per kind of violation; the rest is only counted"""
+    k = "viol:" + sigkey
+    stats[k] = stats.get(k, 0) + 1
+    if stats[k] <= MAX_PER_SIG:
+        ctx.violation(what, rep)
+        return True
+    return False
+
+
 def process(ctx, exe, batch, known, stats, do_shrink=True):
     """judge a batch of (h, init, steps)"""
     cfgs = allowed_cfgs()
@@ -661,6 +810,24 @@ def process(ctx, exe, batch, known, stats, do_shrink=True):
     vs = eval_cases(ctx, "C15_gov", terms)
     if vs is None:
         return
+    # look behind instances of listed findings: re-judge with the explained codes skipped
+    skips = [[] for _ in good]
+    for _round in range(8):
+        again = []
+        for k, ((h, init, steps), v) in enumerate(zip(good, vs)):
+            kind, info = classify(h, init, steps, v, known)
+            if kind == "known" and v[0] not in skips[k]:
+                ctx.known(info, known[info]["what"])
+                stats["known:" + info] = stats.get("known:" + info, 0) + 1
+                skips[k].append(v[0])
+                again.append(k)
+        if not again:
+            break
+        vs2 = eval_cases(ctx, "C15_gov_skip", [case_term(*good[k], cfgs, skips[k]) for k in again])
+        if vs2 is None:
+            return
+        for k, v2 in zip(again, vs2):
+            vs[k] = v2
     for (h, init, steps), v in zip(good, vs):
         kind, info = classify(h, init, steps, v, known)
         stats[kind] = stats.get(kind, 0) + 1
@@ -679,6 +846,10 @@ def process(ctx, exe, batch, known, stats, do_shrink=True):
             continue
         hh = h
         ini, st, vv = init, steps, v
+        sk = "%s:%d" % sig(v)
+        if stats.get("viol:" + sk, 0) >= MAX_PER_SIG:
+            stats["viol:" + sk] += 1
+            continue
         if do_shrink and len(h["blocks"]) > 2:
             hs = shrink(ctx, exe, h, sig(v))
             if hs is not h:
@@ -689,7 +860,7 @@ def process(ctx, exe, batch, known, stats, do_shrink=True):
                         hh, ini, st, vv = hs, res[0][0], res[0][1], vs2[0]
                         kind, info = classify(hh, ini, st, vv, known)
         if kind == "violation":
-            ctx.violation(info, replay_obj(hh, ini, st, vv, info))
+            report(ctx, stats, sk, info, replay_obj(hh, ini, st, vv, info))
         elif kind == "broken":
             # the property holds on the implementation's trace but the model does not reproduce it
             ctx.broken("correspondence:check_case", info + " :: " + json.dumps(replay_obj(hh, ini, st, vv, info))[:3000])
@@ -764,10 +935,11 @@ def run_decide(ctx, exe, known, stats):
             if v[0] in (0, 3):
                 continue
             rep = dict(property=PID, driver="decide", input=lines[i], impl=o, verdict=list(v))
-            if v[0] == 2 and not mono_py(e, max(t, 1)) and "C15-nonmonotone-expression" in known and o["end"] and not o["pass"]:
+            if v[0] == 2 and not mono_py(e, max(t, 1), av) and "C15-nonmonotone-expression" in known and o["end"] and not o["pass"]:
                 ctx.known("C15-nonmonotone-expression", known["C15-nonmonotone-expression"]["what"])
             elif v[0] == 2:
-                ctx.violation("MakeStrategyDecision: decision not justified by the expression (a=%d r=%d t=%d avail=%d, %s)" % (a, rr, t, av, b_go(e)), rep)
+                report(ctx, stats, "decide:" + ("underflow" if rr > av else "other"),
+                       "MakeStrategyDecision: decision not justified by the expression (a=%d r=%d t=%d avail=%d, %s)" % (a, rr, t, av, b_go(e)), rep)
             else:
                 ctx.broken("correspondence:judge_decide", "first differing case: " + json.dumps(rep))
     # errors / panics must be exactly the ill-typed inputs: none of the pool expressions is ill-typed
@@ -853,6 +1025,15 @@ def run(ctx):
             done += k
             if ctx.violations and done >= 300:
                 break
+        themed = [gen_theme(ctx.rng) for _ in range(60 if ctx.quick else 3000)]
+        for i in range(0, len(themed), 400):
+            part = themed[i:i + 400]
+            res, e = run_batch(exe, part)
+            if res is None:
+                ctx.broken("driver:gov", e)
+                break
+            process(ctx, exe, [(h, ini, st) for h, (ini, st) in zip(part, res)], known, stats)
+        stats["themed_histories"] = len(themed)
         if not ctx.quick:
             hs = exhaustive_histories(ctx)
             for i in range(0, len(hs), 400):
